@@ -94,6 +94,9 @@ def r_helpers(chk, P, tier):
                 fn = vs[0]
                 ts = terms_of(P, fn)
                 used = {c[1].split("::")[-1] for t in ts for c in find_calls(t) if c[1].startswith("datetime::DateTime::<offset::utc::Utc>::from_timestamp")}
+                if not used:
+                    # the constructor may be called from a closure handed to an Option/Result combinator
+                    used = {c.split("::")[-1] for c in callees(P, fn) if c.startswith("datetime::DateTime::<offset::utc::Utc>::from_timestamp")}
                 ok = bool(used) and used <= ctors
                 detail = ""
                 if ok and "from_timestamp" in used and unit != "seconds":
@@ -110,8 +113,10 @@ def r_helpers(chk, P, tier):
                         ok = ok and not any(x[0] == "bin" and x[1] in ("Div", "Rem") for t in (secs, nanos) for x in walk_terms(t))
                     detail = "div %s rem %s mul %s" % (divs, rems, muls)
                 elif ok and unit == "seconds":
-                    call = [c for t in ts for c in find_calls(t) if c[1].endswith("::from_timestamp")][0]
-                    ok = const_of(call[2][1]) == 0
+                    cands = [c for t in ts for c in find_calls(t) if c[1].endswith("::from_timestamp")]
+                    if not cands:
+                        cands = [c for cl in P.closures_of(fn) for pth in Sym(P, cl).paths() for c in pth.calls if isinstance(c[1], str) and c[1].endswith("::from_timestamp")]
+                    ok = bool(cands) and all(const_of(c[2][1]) == 0 for c in cands)
                 chk.expect(ok, fn, "%s builds the value with %s %s (expected %s, D=%d, M=%d)" % (fn, sorted(used), detail, sorted(ctors), D, M), loc=P.loc(fn))
             # the naive family converts through and_utc()/naive_utc() only
     chk.rule("SIB.option_visitors", "_option visitors delegate to the plain visitor of the same unit (visit_some) and map none/unit to None", floor=16)
